@@ -78,6 +78,10 @@ def run(prop, tier, seed, known):
 
     def level(k, end):
         cuts = sorted(rng.sample([x * 0.5 for x in range(1, int(end / 0.5))], min(k - 1, int(end / 0.5) - 1))) if k > 1 else []
+        if cuts and rng.random() < 0.15:
+            # a boundary a few microseconds below a frame edge (still in the earlier frame; nothing rounds boundaries before framing)
+            j_ = rng.randrange(len(cuts))
+            cuts[j_] = cuts[j_] - 4e-06
         b = [0.0] + cuts + [end]
         return [[b[i], b[i + 1]] for i in range(len(b) - 1)]
 
